@@ -1,8 +1,14 @@
 """C18 - CLI exit codes and the argument-to-context contract.
 
-Model: lean/PypyrModel/Cli.lean (driver ops cli.exit/main/argv/parser/parseinput/initctx);
+Model: lean/PypyrModel/Cli.lean (driver ops cli.exit/main/phases/argv/parser/parseinput/initctx);
 theorems Props/C18.lean. Implementation: harness/impl_c18.py (in-process and `python -m pypyr`).
 Monitors are written from the property text and judge the implementation's observation directly.
+
+"Any error escaped" is checked phase by phase (section 4b/5b): configuration look-up, logging set-up,
+pipeline load, pipeline run - by breaking the environment / command line for real, by making the call
+of each phase raise, and by making every source line of cli.main after argument parsing raise. What is
+expected never depends on where the `try` of cli.main is; the extractor (harness/extract_c18.py ->
+lean/Generated/CliMain.lean) ties the model's placement of the calls to the source.
 """
 from __future__ import annotations
 
@@ -16,7 +22,9 @@ from ..common import canon
 from .. import impl_c18 as impl
 
 LEAN_MODULES = ['Props.C18']
-TRUSTED = ['harness/props/c18.py, harness/impl_c18.py (generators, pipeline renderer, SIGINT hand-off, monitors)',
+TRUSTED = ['harness/props/c18.py, harness/impl_c18.py (generators, pipeline renderer, SIGINT hand-off, monitors, '
+           'fault-injection shim and reference child)',
+           'harness/extract_c18.py (ast -> Generated/CliMain.lean)',
            'CPython argparse / str.partition / str.join / json.loads / sys.exit / signal delivery',
            "Lean's Lean.Json.parse as stand-in for json.loads in the driver (integers only, compared up to key order)"]
 ASSUMPTIONS = [
@@ -26,6 +34,10 @@ ASSUMPTIONS = [
     'Exception with type name and message); which of these a given pipeline produces is C01/C02 territory and is '
     'fixed here by construction of the generated pipelines',
     'BaseException other than KeyboardInterrupt, shortcuts from config, --version/-h are outside the model',
+    'the exit-code clause covers what the command does after its arguments are parsed (config.init, logging set-up, '
+    'pipeline load and run - every statement of cli.main after the get_args statement, wherever it sits relative to '
+    'the try); argparse usage errors (status 2), interpreter start-up / module import and faults inside the '
+    'exception handlers themselves are outside it',
 ]
 
 PARSERS = ['pypyr.parser.keyvaluepairs', 'pypyr.parser.argskwargs', 'pypyr.parser.dict', 'pypyr.parser.list',
@@ -412,6 +424,11 @@ def check_ladders(env, res, n):
         if stop_family and real_pr != 'nothing':
             res.violation(case, f'Pipeline.run lets {r["kind"]} escape ({real_pr}): the command would not exit 0',
                           signature={'part': 'exit', 'clause': 'stop-is-success', 'kind': r['kind']}, impl=real_pr)
+        if isinstance(real['ret'], str):
+            res.violation(case, f'{r["kind"]} raised by the runner leaves cli.main {real["ret"]}: the command dies with a '
+                          'traceback and the interpreter\'s status',
+                          signature={'part': 'exit', 'clause': 'escapes-main', 'kind': r['kind']}, impl=real)
+            continue
         if r['kind'] == 'nothing' and real['ret'] not in (None, 0):
             res.violation(case, f'completed run returns {real["ret"]}', signature={'part': 'exit', 'clause': 'ok-0'}, impl=real)
         if r['kind'] == 'keyboardInterrupt' and real['ret'] != 130:
@@ -426,6 +443,100 @@ def check_ladders(env, res, n):
                               signature={'part': 'exit', 'clause': 'stderr-type-message'}, impl=real)
         if real_pr == 'error' and r['kind'] == 'error':
             pass
+
+
+# --------------------------------------------------------------------------
+# 4b. exit status: a fault in every phase of cli.main, in-process
+# --------------------------------------------------------------------------
+
+PHASES = ('config', 'logger', 'run')
+
+
+def check_phase_ladders(env, res, n):
+    """cli.main with a scripted fault in each phase (config.init / set_root_logger / below Pipeline.run),
+    alone and in pairs (the earlier phase must win): model `cli.phases` vs the real function, and the
+    monitor from the property text - whatever phase raised, main must return 130 / 255+text, never let it out."""
+    drv = env.driver
+    rng = env.rng
+    NOTHING = {'kind': 'nothing'}
+    singles = [{'kind': k} for k in ('keyboardInterrupt', 'stop', 'stopPipeline', 'stopStepGroup')]
+    singles += [{'kind': 'error', 'ty': t, 'msg': m} for t, m in
+                (('ValueError', 'boom'), ('ConfigError', 'Could not open config file at /x/y.yaml.'),
+                 ('FileNotFoundError', "[Errno 2] No such file or directory: '/nodir/x.log'"), ('MyOwnError', ''),
+                 ('TOMLDecodeError', 'line1\nline2'), ('OSError', 'ünï ✓'))]
+    every = [{'kind': 'error', 'ty': t, 'msg': m} for t in TYPES for m in MSGS]
+    cases = [{}]
+    for ph in PHASES:
+        for r in singles:
+            cases.append({ph: r})
+    for a, b in (('config', 'logger'), ('config', 'run'), ('logger', 'run')):
+        for ra in singles[:1] + singles[4:6]:
+            for rb in singles[:1] + singles[4:5]:
+                cases.append({a: ra, b: rb})
+    cases.append({'config': singles[4], 'logger': singles[0], 'run': singles[5]})
+    extra = max(0, n - len(cases))
+    for _ in range(extra):
+        f = {}
+        for ph in PHASES:
+            if rng.random() < 0.45:
+                f[ph] = rng.choice(every + singles)
+        cases.append(f)
+    for f in cases:
+        faults = {ph: f.get(ph, NOTHING) for ph in PHASES}
+        lvl = rng.choice([None, None, 50, 5])
+        case = {'kind': 'phase-ladder', 'faults': faults, 'log_level': lvl}
+        m = drv.ask('cli.phases', faults=faults)
+        real = impl.main_phases_obs(faults, log_level=lvl)
+        res.case(case, nontrivial=True)
+        # the first phase (source order of the property text: config, logging, run) whose call raises;
+        # a Stop-family signal in the run phase is absorbed below main
+        first = None
+        for ph in PHASES:
+            k = faults[ph]['kind']
+            if k == 'nothing' or (ph == 'run' and k in ('stop', 'stopPipeline', 'stopStepGroup')):
+                continue
+            first = ph
+            break
+        res.count('phase-ladder:' + (f'{first}:{faults[first]["kind"]}' if first else 'none'))
+        if real['outcome'] == 'returned':
+            rv = {'outcome': 'returned', 'ret': real['ret'], 'stdout': real['stdout'],
+                  'stderr': real['stderr'].split('Traceback (most recent call last)')[0]}
+        else:
+            rv = {'outcome': 'escaped'}
+        mv = {'outcome': m['outcome']}
+        if m['outcome'] == 'returned':
+            mv.update(ret=m['ret'], stdout=m['stdout'], stderr=m['stderr'])
+        if mv != rv:
+            res.mismatch(case, mv, {**rv, 'exc': real.get('exc')})
+        # ---- monitor
+        cls = 'none' if not first else ('keyboardInterrupt' if faults[first]['kind'] == 'keyboardInterrupt' else 'exception')
+        sig = {'part': 'exit', 'phase': first or 'none', 'fault': cls}
+        if real['outcome'] == 'escaped':
+            res.violation(case, f'{first} phase, {cls}: what this phase raises leaves cli.main uncaught (here {real["exc"]}): '
+                          'the command dies with a traceback and the interpreter\'s status instead of ' +
+                          ('130' if cls == 'keyboardInterrupt' else '255 with "<type>: <message>" on stderr'),
+                          signature={**sig, 'clause': 'escapes-main'}, impl=real)
+            continue
+        status = 0 if real['ret'] is None else real['ret']
+        if first is None:
+            if status != 0:
+                res.violation(case, f'nothing escaped any phase, main returns {real["ret"]}',
+                              signature={**sig, 'clause': 'ok-0'}, impl=real)
+        elif faults[first]['kind'] == 'keyboardInterrupt':
+            if status != 130:
+                res.violation(case, f'KeyboardInterrupt in the {first} phase: main returns {real["ret"]}, not 130',
+                              signature={**sig, 'clause': 'interrupt-130'}, impl=real)
+        else:
+            r = faults[first]
+            ty = r['ty'] if r['kind'] == 'error' else {'stop': 'Stop', 'stopPipeline': 'StopPipeline',
+                                                      'stopStepGroup': 'StopStepGroup'}[r['kind']]
+            msg = r.get('msg', '')
+            if status != 255:
+                res.violation(case, f'{ty} escaped the {first} phase: main returns {real["ret"]}, not 255',
+                              signature={**sig, 'clause': 'error-255'}, impl=real)
+            elif f'{ty}: {msg}' not in real['stderr']:
+                res.violation(case, f'stderr lacks "{ty}: {msg}": {real["stderr"]!r}',
+                              signature={**sig, 'clause': 'stderr-type-message'}, impl=real)
 
 
 # --------------------------------------------------------------------------
@@ -651,6 +762,199 @@ def probe_case(rng):
             'sigint': False, 'parser': parser, 'ctx_args': ctx}
 
 
+# --------------------------------------------------------------------------
+# 5b. "any error escaped": a fault in every phase of the command, real processes
+# --------------------------------------------------------------------------
+
+HERMETIC = {'XDG_CONFIG_HOME': '@TMP@/xdg-home', 'XDG_CONFIG_DIRS': '@TMP@/xdg-dirs'}
+GOOD_PIPE = {'work/pipe.yaml': json.dumps({'steps': [ECHO]}, indent=1)}
+KI_STEP = {'work/kistep.py': "def run_step(context):\n    raise KeyboardInterrupt()\n"}
+INJECT_TARGETS = {'config': 'pypyr.config:Config.init', 'logger': 'pypyr.log.logger:set_root_logger',
+                  'run': 'pypyr.pipelinerunner:run'}
+
+
+def natural_faults():
+    """(intended phase, fault name, files, argv, env): the environment or the command line is broken in a way
+    that makes one phase of the command fail by itself (no injection)."""
+    F = []
+
+    def add(phase, fault, files=None, argv=None, env=None):
+        F.append((phase, fault, {**GOOD_PIPE, **(files or {})}, argv or ['pipe'], {**HERMETIC, **(env or {})}))
+    # --- configuration look-up
+    add('config', 'global-config-missing', env={'PYPYR_CONFIG_GLOBAL': '@TMP@/not-here.yaml'})
+    add('config', 'global-config-is-directory', env={'PYPYR_CONFIG_GLOBAL': '@TMP@/work'})
+    add('config', 'global-config-list', files={'g.yaml': '- a\n- b\n'}, env={'PYPYR_CONFIG_GLOBAL': '@TMP@/g.yaml'})
+    add('config', 'global-config-unknown-key', files={'g.yaml': 'no_such: 1\n'}, env={'PYPYR_CONFIG_GLOBAL': '@TMP@/g.yaml'})
+    add('config', 'local-config-list', files={'work/pypyr-config.yaml': '- just\n- a\n- list\n'})
+    add('config', 'local-config-scalar', files={'work/pypyr-config.yaml': 'just text\n'})
+    add('config', 'local-config-unknown-key', files={'work/pypyr-config.yaml': 'no_such_setting: 1\n'})
+    add('config', 'local-config-bad-yaml', files={'work/pypyr-config.yaml': 'a: [1, 2\nb: }\n'})
+    add('config', 'local-config-vars-not-mapping', files={'work/pypyr-config.yaml': 'vars: 5\n'})
+    add('config', 'local-config-shortcuts-not-mapping', files={'work/pypyr-config.yaml': 'shortcuts: [1]\n'})
+    add('config', 'local-config-env-name-list', files={'work/alt.yaml': '- x\n'}, env={'PYPYR_CONFIG_LOCAL': 'alt.yaml'})
+    add('config', 'pyproject-malformed', files={'work/pyproject.toml': '[tool.pypyr\nbroken = = 1\n'})
+    add('config', 'pyproject-unknown-key', files={'work/pyproject.toml': '[tool.pypyr]\nnope = 1\n'})
+    add('config', 'pyproject-tool-pypyr-not-table', files={'work/pyproject.toml': '[tool]\npypyr = 3\n'})
+    add('config', 'user-config-list', files={'xdg-home/pypyr/config.yaml': '- x\n'})
+    add('config', 'user-config-bad-yaml', files={'xdg-home/pypyr/config.yaml': '{a: 1\n'})
+    add('config', 'common-config-unknown-key', files={'xdg-dirs/pypyr/config.yaml': 'zzz: 1\n'})
+    # --- logging set-up
+    add('logger', 'logpath-in-missing-directory', argv=['pipe', '--logpath', '@TMP@/nodir/x.log'])
+    add('logger', 'logpath-is-directory', argv=['--logpath', '@TMP@/work', 'pipe'])
+    add('logger', 'log_config-unsupported-version', files={'work/pypyr-config.yaml': 'log_config:\n  version: 7\n'})
+    add('logger', 'log_config-not-mapping', files={'work/pypyr-config.yaml': 'log_config: 5\n'})
+    add('logger', 'log_config-unknown-handler-class', files={'work/pypyr-config.yaml': (
+        'log_config:\n  version: 1\n  handlers:\n    h:\n      class: no.such.Handler\n  root:\n    handlers: [h]\n')})
+    add('logger', 'log-format-not-string', files={'work/pypyr-config.yaml': 'log_notify_format: 5\n'})
+    # --- pipeline load
+    add('run', 'pipeline-not-found', argv=['nosuchpipe'])
+    add('run', 'pipeline-not-found-with-args', argv=['nosuchpipe', 'a=b', '--groups', 'g', '--success', 's'])
+    add('run', 'pipeline-bad-yaml', files={'work/bad.yaml': 'steps: [1, \n x: }'}, argv=['bad'])
+    add('run', 'pipeline-list-at-top', files={'work/lst.yaml': '- a\n'}, argv=['lst'])
+    add('run', 'pipeline-empty-file', files={'work/empty.yaml': ''}, argv=['empty'])
+    add('run', 'context-parser-module-missing', files={'work/cp.yaml': jpipe(context_parser='no.such.parser', steps=[ECHO])},
+        argv=['cp', 'x'])
+    add('run', 'step-module-missing', files={'work/sm.yaml': jpipe(steps=['no.such.stepmodule'])}, argv=['sm'])
+    add('run', 'shortcut-to-missing-pipeline', files={'work/pypyr-config.yaml': 'shortcuts:\n  sc:\n    pipeline_name: gone\n'},
+        argv=['sc'])
+    # --- pipeline run
+    add('run', 'step-raises', files={'work/f.yaml': jpipe(steps=[ECHO, raise_step('ValueError', 'step failed'), NEVER])}, argv=['f'])
+    add('run', 'step-raises-in-on_failure-too', files={'work/f.yaml': jpipe(steps=[raise_step('ValueError', 'orig')],
+                                                                            on_failure=[raise_step('OSError', 'h')])}, argv=['f'])
+    add('run', 'py-dir-module-raises-at-import', files={'work/f.yaml': jpipe(steps=['brokenmod']),
+                                                        'mods/brokenmod.py': "raise RuntimeError('import blew up')\n"},
+        argv=['f', '--dir', '@TMP@/mods'])
+    # --- keyboard interrupt raised by a step (no signal involved)
+    for variant, body in (('plain', {'steps': ['kistep', NEVER]}),
+                          ('swallow', {'steps': [{'name': 'kistep', 'swallow': True}, NEVER]}),
+                          ('retry', {'steps': [{'name': 'kistep', 'retry': {'max': 3}}, NEVER]}),
+                          ('in-on_failure', {'steps': [raise_step('ValueError', 'orig')], 'on_failure': ['kistep']}),
+                          ('in-on_success', {'steps': [ECHO], 'on_success': ['kistep']}),
+                          ('in-foreach', {'steps': [{'name': 'kistep', 'foreach': [1, 2]}, NEVER]})):
+        add('run', 'step-raises-KeyboardInterrupt/' + variant, files={'work/ki.yaml': json.dumps(body, indent=1), **KI_STEP},
+            argv=['ki'])
+    # --- nothing wrong: the same look-up places hold valid files
+    add('none', 'valid-config-everywhere', files={'work/pypyr-config.yaml': 'json_indent: 4\nvars:\n  a: b\n',
+                                                  'work/pyproject.toml': '[tool.pypyr]\njson_ascii = true\n[tool.other]\nx = 1\n',
+                                                  'xdg-home/pypyr/config.yaml': 'default_success_group: on_success\n',
+                                                  'xdg-dirs/pypyr/config.yaml': 'vars:\n  c: d\n'},
+        argv=['pipe', '--logpath', '@TMP@/ok.log'])
+    add('none', 'empty-config-files', files={'work/pypyr-config.yaml': '', 'work/pyproject.toml': ''})
+    add('none', 'skip-init-with-broken-config', files={'work/pypyr-config.yaml': '- list\n'}, env={'PYPYR_SKIP_INIT': '1'})
+    return F
+
+
+def phase_of_stmt(stmt):
+    for key, ph in (('config.init', 'config'), ('set_root_logger', 'logger'), ('pipelinerunner.run', 'run')):
+        if key in stmt:
+            return ph
+    return 'other'
+
+
+def fault_cases(env, full):
+    from .. import extract_c18
+    rng = env.rng
+    C = []
+
+    def mk(origin, phase, fault, files, argv, envv, inject=None, raised=None):
+        return {'kind': 'proc', 'family': 'fault', 'origin': origin, 'phase': phase, 'fault': fault,
+                'command': 'python -m pypyr ' + ' '.join(repr(a) if (' ' in a or not a) else a for a in argv),
+                'cwd': 'work', 'files': files, 'argv': argv, 'env': envv, 'inject': inject, 'raised': raised, 'sigint': False}
+    # 1. natural faults; what escapes and from which phase is found out by the reference child
+    layouts = [[]] if not full else [[], ['--log', '50'], ['--log', '5'], ['--loglevel', '10']]
+    for phase, fault, files, argv, envv in natural_faults():
+        for extra in layouts:
+            if extra and any(a in ('--log', '--loglevel') for a in argv):
+                continue
+            C.append(mk('natural', phase, fault, files, argv + extra, envv))
+    # 2. the named call of each phase raises (shim), on an otherwise good run
+    errs = [('ValueError', 'injected failure'), ('pypyr.errors.ConfigError', 'injected: Could not open config file'),
+            ('MyOwnError', ''), ('OSError', 'ünï ✓ k=v'), ('RuntimeError', 'line1\nline2'), ('pypyr.errors.Stop', ''),
+            ('pypyr.errors.StopPipeline', ''), ('pypyr.errors.StopStepGroup', '')]
+    if full:
+        errs += [(t, m) for t in ('ValueError', 'MyOwnError', 'pypyr.errors.PipelineNotFoundError') for m in MSGS]
+    for phase, target in INJECT_TARGETS.items():
+        for ty, msg in [('KeyboardInterrupt', '')] + (errs if full else errs[:2] + rng.sample(errs[2:], 3)):
+            short = ty.rsplit('.', 1)[-1]
+            raised = {'kind': 'keyboardInterrupt'} if ty == 'KeyboardInterrupt' else {'kind': 'error', 'ty': short, 'msg': msg}
+            argv = ['pipe'] + rng.choice([[], ['--log', '50'], ['--log', '5'], ['a=b', '--groups', 'steps']])
+            C.append(mk('call-raises', phase, short, dict(GOOD_PIPE), argv, dict(HERMETIC),
+                        inject={'at': 'call', 'target': target, 'exc': ty, 'msg': msg}, raised=raised))
+    # a Stop-family signal from below Pipeline.run ends the command with 0
+    for ty in ('Stop', 'StopPipeline', 'StopStepGroup'):
+        C.append(mk('call-raises', 'below-Pipeline.run', ty, dict(GOOD_PIPE), ['pipe'], dict(HERMETIC),
+                    inject={'at': 'call', 'target': 'pypyr.pipeline:Pipeline.load_and_run_pipeline', 'exc': 'pypyr.errors.' + ty},
+                    raised={'kind': {'Stop': 'stop', 'StopPipeline': 'stopPipeline', 'StopStepGroup': 'stopStepGroup'}[ty]}))
+    # 3. every source line of cli.main after argument parsing raises (shim trace function)
+    kinds = [('KeyboardInterrupt', ''), ('LineFault', 'raised at this line')]
+    if full:
+        kinds += [('pypyr.errors.ConfigError', 'x: y'), ('OSError', '')]
+    for line, stmt in extract_c18.injectable_lines(common.REPO):
+        for ty, msg in kinds:
+            short = ty.rsplit('.', 1)[-1]
+            raised = {'kind': 'keyboardInterrupt'} if ty == 'KeyboardInterrupt' else {'kind': 'error', 'ty': short, 'msg': msg}
+            c = mk('line-raises', phase_of_stmt(stmt), short, dict(GOOD_PIPE), ['pipe'], dict(HERMETIC),
+                   inject={'at': 'line', 'line': line, 'exc': ty, 'msg': msg}, raised=raised)
+            c['stmt'] = stmt[:60]
+            C.append(c)
+    return C
+
+
+def judge_fault(env, res, c, o, ref):
+    """Monitor from the property text for one faulty run of the real command. `ref`: observation of the
+    reference child (natural faults) or None (the fault is known by construction)."""
+    drv = env.driver
+    case = dict(c)
+    res.case(case, nontrivial=True)
+    if ref is not None:
+        phase, raised = ref['discovered']['phase'] or 'none', ref['discovered']['raised']
+    else:
+        phase, raised = c['phase'], c['raised']
+        if c['inject'] and not o.get('fired'):
+            # the line has no line event of its own (continuation line): nothing was injected
+            res.count('fault:line-not-reached')
+            phase, raised = 'none', {'kind': 'nothing'}
+    res.count(f"fault:{c['origin']}:{phase}:{raised['kind']}")
+    res.count('proc-status:' + str(o['status']))
+    if ref is not None and phase != c['phase']:
+        res.count(f"fault:natural:intended-{c['phase']}-was-{phase}")
+    brief = {'status': o['status'], 'stdout_tail': o['stdout'][-200:], 'stderr_tail': o['stderr'][-900:]}
+    sig = {'part': 'process', 'origin': c['origin'], 'phase': phase, 'fault': c['fault'].split('/')[0]}
+    where = f"{c['origin']} fault {c['fault']!r} in the {phase} phase" + (f" (line {c['inject']['line']}: {c.get('stmt')})"
+                                                                        if c['origin'] == 'line-raises' else '')
+    uncaught = o['status'] not in (0, 130, 255) and 'Traceback (most recent call last)' in o['stderr']
+    how = ' - the exception left cli.main uncaught (raw traceback)' if uncaught else ''
+    kind = raised['kind']
+    if kind == 'nothing' or (kind in ('stop', 'stopPipeline', 'stopStepGroup') and phase in ('run', 'below-Pipeline.run')):
+        want = 0
+    elif kind == 'keyboardInterrupt':
+        want = 130
+    else:
+        want = 255
+    if o['status'] != want:
+        res.violation(case, f"{where}: {kind} -> exit status {o['status']}, expected {want}{how}",
+                      signature={**sig, 'clause': f'status-{want}'}, impl=brief)
+    elif want == 255:
+        ty = raised['ty'] if kind == 'error' else {'stop': 'Stop', 'stopPipeline': 'StopPipeline',
+                                                  'stopStepGroup': 'StopStepGroup'}[kind]
+        text = f"{ty}: {raised.get('msg', '')}"
+        if text not in o['stderr']:
+            res.violation(case, f"{where}: status 255 but stderr lacks {text!r}",
+                          signature={**sig, 'clause': 'stderr-type-message'}, impl=brief)
+    # ---- model
+    if phase in ('config', 'logger', 'run', 'none', 'below-Pipeline.run'):
+        faults = {ph: {'kind': 'nothing'} for ph in PHASES}
+        if phase != 'none':
+            faults['run' if phase == 'below-Pipeline.run' else phase] = raised
+        m = drv.ask('cli.phases', faults=faults)
+        ok = m['outcome'] == 'returned' and m['status'] == o['status'] and m['stderr'] in o['stderr']
+        if ok and kind == 'keyboardInterrupt' and not o['stdout'].endswith(m['stdout']):
+            ok = False
+        if not ok:
+            res.mismatch(case, {k: m.get(k) for k in ('outcome', 'status', 'stdout', 'stderr')}, brief,
+                         note=f'phase={phase} raised={raised}')
+
+
 def judge_proc(env, res, c, o):
     drv = env.driver
     exp = c['expect']
@@ -716,13 +1020,44 @@ def judge_proc(env, res, c, o):
 def check_procs(env, res, cases):
     impl.check_import_path()
     workers = max(2, min(12, (os.cpu_count() or 4) - 2))
+    jobs = []
+    for c in cases:
+        jobs.append(c)
+        if c.get('family') == 'fault' and c['origin'] == 'natural':
+            jobs.append({**c, 'mode': 'discover'})
     with concurrent.futures.ThreadPoolExecutor(workers) as ex:
-        obs = list(ex.map(impl.run_proc, cases))
-    for c, o in zip(cases, obs):
-        judge_proc(env, res, c, o)
+        obs = list(ex.map(impl.run_proc, jobs))
+    it = iter(obs)
+    for c in cases:
+        o = next(it)
+        if c.get('family') == 'fault':
+            judge_fault(env, res, c, o, next(it) if c['origin'] == 'natural' else None)
+        else:
+            judge_proc(env, res, c, o)
 
 
 # --------------------------------------------------------------------------
+
+def extract(env):
+    """Regenerate lean/Generated/CliMain.lean from pypyr/cli.py + pypyr/__main__.py of the tree under test
+    (ast only); Props/C18.lean `main_shape_agrees` proves it equals what the model assumes."""
+    from .. import extract_c18
+    extract_c18.generate(common.REPO, common.LEAN / 'Generated' / 'CliMain.lean')
+
+
+def order_findings(res):
+    """Only the first few distinct findings get a replay file: put the most concrete ones first - real
+    command lines with broken files, then injected faults in real processes, then everything else,
+    in-process scripted ladders last."""
+    def prio(f):
+        if f['kind'] != 'property':
+            return 0
+        c = f['case'] if isinstance(f['case'], dict) else {}
+        if c.get('family') == 'fault':
+            return {'natural': 0, 'call-raises': 1, 'line-raises': 2}.get(c.get('origin'), 2)
+        return 4 if c.get('kind') == 'phase-ladder' else 3
+    res.findings.sort(key=prio)
+
 
 def run(env, res):
     res.rule = ('argv: directed list + command lines rendered in the three accepted layouts from random options/values '
@@ -731,14 +1066,22 @@ def run(env, res):
                 'non-objects, invalid text); _get_parse_input: full 3x4x3 table; API initial context: parser x parse_args '
                 'x args_in x dict_in; exit ladders in-process: every kind x type x message; real processes: generated '
                 'pipelines per way of termination (ok, stop/stoppipeline/stopstepgroup in 8 positions, error kinds, '
-                'SIGINT in 11 positions) and end-to-end pass-through probes. non-trivial = all')
+                'SIGINT in 11 positions) and end-to-end pass-through probes; a fault in every phase of the command: '
+                'in-process cli.main with scripted raises from config.init / set_root_logger / below Pipeline.run, alone '
+                'and in pairs; real processes with broken config files / $PYPYR_CONFIG_GLOBAL / pyproject.toml / '
+                'log_config / --logpath / missing or malformed pipelines / failing steps / steps raising '
+                'KeyboardInterrupt (what escapes and from which phase is established by a reference child), with the '
+                'named call of each phase raising (shim), and with every source line of cli.main after argument parsing '
+                'raising (trace-function shim). non-trivial = all')
     q = env.quick
     impl.quiet_logging()
     check_argv(env, res, 1500 if q else 12000, 600 if q else 6000)
     check_parsers(env, res, 1500 if q else 15000)
     check_api(env, res, 250 if q else 100000)
     check_ladders(env, res, 40 if q else 1000)
-    check_procs(env, res, proc_cases(env, full=not q))
+    check_phase_ladders(env, res, 80 if q else 3000)
+    check_procs(env, res, fault_cases(env, full=not q) + proc_cases(env, full=not q))
+    order_findings(res)
 
 
 def replay(env, res, case):
@@ -755,3 +1098,4 @@ def replay(env, res, case):
         check_parsers(env, res, 300)
         check_api(env, res, 250)
         check_ladders(env, res, 40)
+        check_phase_ladders(env, res, 80)
